@@ -439,7 +439,7 @@ def explore(cfg, r: Result, tier):
                 last_case = case
                 rk = w.keys[op[1]]
                 status = ref.status(rk)
-                desc = f'after {op_class(op)} on {status} key ({cfg["source"]} big_map)'
+                desc = f'after {op_class(op)} on {status} key'
                 if len(op) == 3 or status != 'absent':
                     r.nt((cfg_key, pre, op))
                 exp_obs, ref2 = ref.step(ref_op(w, op))
@@ -449,12 +449,12 @@ def explore(cfg, r: Result, tier):
                     raise
                 except Exception as e:
                     r.out(f'{op[0]} raises')
-                    r.viol(f'{op_class(op)} raises {type(e.__cause__ or e).__name__} on {status} key ({cfg["source"]} big_map)', case,
+                    r.viol(f'{op_class(op)} raises {type(e.__cause__ or e).__name__} on {status} key', case,
                            f'{cfg_key} history {[op_text(w, o) for o in h2]}: {e!r}')
                     continue
                 if obs != exp_obs:
                     r.out(f'{op[0]} observation differs')
-                    r.viol(f'{op_class(op)} observation wrong on {status} key ({cfg["source"]} big_map)', case,
+                    r.viol(f'{op_class(op)} observation wrong on {status} key', case,
                            f'{cfg_key} history {[op_text(w, o) for o in h2]}: got {obs}, dictionary says {exp_obs}')
                     continue
                 r.out(f'{op_class(op)} on {status} key -> {"-" if obs is None else ("Some" if obs[1] not in (None, False, True) else obs[1])}')
@@ -493,17 +493,17 @@ def replay(case):
     out += vs
     for i, op in enumerate(history):
         status = ref.status(w.keys[op[1]])
-        desc = f'after {op_class(op)} on {status} key ({cfg["source"]} big_map)'
+        desc = f'after {op_class(op)} on {status} key'
         exp_obs, ref = ref.step(ref_op(w, op))
         try:
             obs, bm = w.step(bm, op)
         except HarnessGap:
             raise
         except Exception as e:
-            out.append((f'{op_class(op)} raises {type(e.__cause__ or e).__name__} on {status} key ({cfg["source"]} big_map)', repr(e)))
+            out.append((f'{op_class(op)} raises {type(e.__cause__ or e).__name__} on {status} key', repr(e)))
             break
         if obs != exp_obs:
-            out.append((f'{op_class(op)} observation wrong on {status} key ({cfg["source"]} big_map)',
+            out.append((f'{op_class(op)} observation wrong on {status} key',
                         f'step {i} {op_text(w, op)}: got {obs}, dictionary says {exp_obs}'))
             break
         vs, _, _ = check_state(cfg, [list(o) for o in history[:i + 1]], desc)
